@@ -1,4 +1,5 @@
 import ChythonModel.Model.Stereo
+import ChythonModel.Model.StereoParse
 import ChythonModel.Spec.Parity
 import ChythonModel.Proofs.C12Perm
 import Mathlib.Tactic.Ring
@@ -453,6 +454,127 @@ theorem reader_explicit_spec (a b c d : Nat) (hnd : [a, b, c, d].Nodup) (env : L
   have : readerInverts isStart 0 = false := by cases isStart <;> rfl
   simp only [readerTetraSign, this]
   exact translateTetra_perm4 a b c d hnd env hp isH none mark
+
+/-! ## 4a. parser bookkeeping: `starts`, ring-closure slots, direction marks on ring-closure bonds -/
+
+section Parser
+open ChythonModel.Model.StereoParse
+
+/-- chain bond with a direction mark: both directions are stored, opposite to each other -/
+theorem atom_step_direction_mark (strong : Bool) (s : St) (ar : Bool) (st : Option Bool) (b : Bool)
+    (hn : s.nAtoms ≠ 0) (hl : s.lastNum ≠ s.nAtoms) (hp : s.previous = some (.dir b)) :
+    ∃ s', step strong s (.atom ar st) = .ok s' ∧ sbGet s'.stereoBonds s.lastNum s.nAtoms = some b ∧
+      sbGet s'.stereoBonds s.nAtoms s.lastNum = some (!b) ∧ s'.starts = s.starts := by
+  refine ⟨_, rfl, ?_⟩
+  cases st <;> simp only [hn, hp, if_false] <;> exact ⟨(sbGet_pair _ _ _ b (!b) hl).1, (sbGet_pair _ _ _ b (!b) hl).2, trivial⟩
+
+
+/-- an atom joins `starts` exactly when it has no preceding atom: first atom of the string or after a dot -/
+theorem atom_step_starts (strong : Bool) (s : St) (ar : Bool) (st : Option Bool) :
+    ∃ s', step strong s (.atom ar st) = .ok s' ∧ s'.nAtoms = s.nAtoms + 1 ∧ s'.lastNum = s.nAtoms ∧
+      (s'.starts = s.starts ++ [s.nAtoms] ↔ (s.nAtoms = 0 ∨ s.previous = some .dot)) ∧
+      (s'.starts = s.starts ∨ s'.starts = s.starts ++ [s.nAtoms]) := by
+  refine ⟨_, rfl, ?_⟩
+  by_cases hn : s.nAtoms = 0
+  · cases st <;> simp [hn]
+  · rcases hp : s.previous with _ | (_ | _ | _) <;> cases st <;> simp [hn, hp]
+
+/-- ring-closure digit, first occurrence: the slot of the partner is reserved at the digit's position -/
+theorem ring_open_reserves_slot (strong : Bool) (s : St) (n : Nat) (hd : s.previous ≠ some .dot) (ho : s.opened = false)
+    (hc : aget s.cycles n = none) :
+    ∃ s', step strong s (.ring n) = .ok s' ∧
+      aget s'.cycles n = some (s.lastNum, s.previous, (s.order.getD s.lastNum []).length) ∧
+      s'.order = orderAppend s.order s.lastNum none ∧ s'.previous = none ∧ s'.stereoBonds = s.stereoBonds := by
+  have this : ∀ (l : List (Nat × (Nat × Option Prev × Nat))) v, aget l n = none → aget (l ++ [(n, v)]) n = some v := by
+    intro l v
+    induction l with
+    | nil => intro _; simp [aget]
+    | cons p tl ih =>
+      obtain ⟨k, w⟩ := p
+      intro h
+      by_cases hk : n = k
+      · simp [aget, hk] at h
+      · simp only [aget, hk, if_false] at h
+        simp [aget, hk, ih h]
+  have hstep : step strong s (.ring n) = .ok { s with
+      cycles := s.cycles ++ [(n, (s.lastNum, s.previous, (s.order.getD s.lastNum []).length))],
+      order := orderAppend s.order s.lastNum none, previous := none } := by
+    simp [step, hd, ho, hc]
+  exact ⟨_, hstep, this _ _ hc, rfl, rfl, rfl⟩
+
+/-- **direction marks on ring-closure bonds**: wherever the mark is written — on the opening digit, on the closing digit,
+on the closing digit with an explicit `-` at the opening one, or on the opening digit with `-` at the closing one — both
+directions of the bond are stored, opposite to each other, and the stored value is the mark as written from its own atom -/
+theorem closeRing_direction_marks (s : St) (strong : Bool) (tok a ind : Nat) (x : Bool) (ha : a ≠ s.lastNum) :
+    (∀ ob pv, (ob = some (.dir x) ∧ (pv = none ∨ pv = some (.bond 1))) →
+      ∃ s', closeRing { s with previous := pv } strong tok a ob ind = .ok s' ∧
+        sbGet s'.stereoBonds a s.lastNum = some x ∧ sbGet s'.stereoBonds s.lastNum a = some (!x)) ∧
+    (∀ ob pv, (pv = some (.dir x) ∧ (ob = none ∨ ob = some (.bond 1))) →
+      ∃ s', closeRing { s with previous := pv } strong tok a ob ind = .ok s' ∧
+        sbGet s'.stereoBonds s.lastNum a = some x ∧ sbGet s'.stereoBonds a s.lastNum = some (!x)) := by
+  have ha' : s.lastNum ≠ a := Ne.symm ha
+  constructor
+  · intro ob pv ⟨ho, hp⟩
+    subst ho
+    rcases hp with rfl | rfl
+    · refine ⟨_, rfl, ?_⟩
+      simpa using sbGet_pair s.stereoBonds a s.lastNum x (!x) ha
+    · refine ⟨_, rfl, ?_⟩
+      simpa using sbGet_pair s.stereoBonds a s.lastNum x (!x) ha
+  · intro ob pv ⟨hp, ho⟩
+    subst hp
+    rcases ho with rfl | rfl
+    · refine ⟨_, rfl, ?_⟩
+      simpa using sbGet_pair s.stereoBonds s.lastNum a x (!x) ha'
+    · refine ⟨_, rfl, ?_⟩
+      have := sbGet_pair s.stereoBonds a s.lastNum (!x) x ha
+      simpa using this.symm
+
+/-- marks on both digits are both kept as written (no consistency check: `C/1…\1` vs `C/1…/1` is the writer's business) -/
+theorem closeRing_two_marks (s : St) (strong : Bool) (tok a ind : Nat) (o b : Bool) (ha : a ≠ s.lastNum) :
+    ∃ s', closeRing { s with previous := some (.dir b) } strong tok a (some (.dir o)) ind = .ok s' ∧
+      sbGet s'.stereoBonds a s.lastNum = some o ∧ sbGet s'.stereoBonds s.lastNum a = some b := by
+  refine ⟨_, rfl, ?_⟩
+  simpa using sbGet_pair s.stereoBonds a s.lastNum o b ha
+
+/-- closing a ring: the partner goes into the reserved slot of the opening atom and is appended on the closing atom -/
+theorem closeRing_order (s : St) (strong : Bool) (tok a ind : Nat) (ob : Option Prev) (s' : St)
+    (h : closeRing s strong tok a ob ind = .ok s') :
+    s'.order = orderAppend (orderSet s.order a ind s.lastNum) s.lastNum (some a) ∧ s'.starts = s.starts ∧
+    s'.stereoAtoms = s.stereoAtoms := by
+  unfold closeRing at h
+  simp only at h
+  split at h
+  · cases h
+  · cases h; exact ⟨rfl, rfl, rfl⟩
+
+/-- reader: one labelled double bond `n=m` with one marked substituent on each side gives one call whose cis flag is
+"both marks point the same way seen from their own double-bond atom" -/
+theorem reader_call_mark (n m n1 n2 : Nat) (s1 s2 : Bool) (h : n ≠ m) :
+    readerCisTransCalls [(n, [(n1, s1)]), (m, [(n2, s2)])] [(n, m), (m, n)] = some [(n, m, n1, n2, s1 == s2)] := by
+  have h' : ¬ m = n := fun e => h e.symm
+  simp [readerCisTransCalls, readerCisTransCalls.go, aget, popitem, h, h']
+
+/-- tokens of `F/C=C/F`-like strings with the second mark written on a chain bond, on the opening digit of a ring
+closure, or on the closing digit (`F{d1}C=C{d2}F`, `F{d1}C=C{d2}1.F1`, `F{d1}C=C1.F{¬d2}1`): the reader makes the same call -/
+def chainToks (d1 d2 : Bool) : List Tok :=
+  [.atom false none, .dir d1, .atom false none, .bond 2, .atom false none, .dir d2, .atom false none]
+def openDigitToks (d1 d2 : Bool) : List Tok :=
+  [.atom false none, .dir d1, .atom false none, .bond 2, .atom false none, .dir d2, .ring 1, .dot, .atom false none, .ring 1]
+def closeDigitToks (d1 d2 : Bool) : List Tok :=
+  [.atom false none, .dir d1, .atom false none, .bond 2, .atom false none, .ring 1, .dot, .atom false none, .dir (!d2), .ring 1]
+
+def cisFlag (toks : List Tok) : Option Bool :=
+  match run false toks with
+  | .ok s => (readerCisTransCalls s.stereoBonds [(1, 2), (2, 1)]).bind fun calls => (calls.head?).map (·.2.2.2.2)
+  | .error _ => none
+
+theorem ring_closure_mark_positions_agree (d1 d2 : Bool) :
+    cisFlag (openDigitToks d1 d2) = cisFlag (chainToks d1 d2) ∧ cisFlag (closeDigitToks d1 d2) = cisFlag (chainToks d1 d2) ∧
+    cisFlag (chainToks d1 d2) = some (d1 != d2) := by
+  cases d1 <;> cases d2 <;> decide
+
+end Parser
 
 /-! ## 4b. stereogenicity of ring double bonds -/
 
